@@ -136,7 +136,12 @@ class Corr:
         self.pows: set = set()
 
     def add(self, spec: Dict, cfg: Dict, init: List[Dict], ops: List[Tuple], rng, meta: Optional[Dict] = None):
-        term, snaps, err, pw = X.case_term(spec, cfg, init, ops, rng)
+        try:
+            term, snaps, err, pw = X.case_term(spec, cfg, init, ops, rng)
+        except Exception as e:  # noqa - the implementation's state cannot be written down as a model term
+            self.ctx.corr_disagreements.append({"relation": "check_ind: the implementation's state is outside what the model can express "
+                                                            f"({type(e).__name__}: {e})", "spec": spec, "cfg": cfg, "init": init, "ops": ops})
+            return None, type(e).__name__
         if term is None:
             return snaps, err
         self.terms.append(term)
